@@ -131,7 +131,9 @@ func TestC19(t *testing.T) {
 	{
 		vals := []string{"echo $((1 + 2))", "((i += 1))", "x=$((1+$x)) y", "echo $(( (1 + 2) * $x ))", "cat <<E\nb\nE\n", "(x\ny)", "{ x\ny; }", "if x\nthen y\nfi", "for i in 1 2\ndo x\ndone", "case x in\nx) y;;\nesac",
 			"x |\ny", "x && y || z", "x; y &", "! x", "f() { x; }", "x >f 2>&1 <<-E\n\tE\n", "echo \"$(a\nb)\" `c\nd`", "echo ${x:-$((1 - 2))} ~/a:~", "x # c\ny", "v=~:~/b w", "while x; do y; done >f", "echo 'a\nb' \"c\nd\" e\\\nf"}
-		srcs := []string{"a", "a b", "a; a", "a | a", "x $(a) y", "{ a; }", "(a)", "if a; then a; fi", "b", "x `a`", "a &&\na", "f() { a; }\n"}
+		srcs := []string{"a", "a b", "a; a", "a | a", "x $(a) y", "{ a; }", "(a)", "if a; then a; fi", "b", "x `a`", "a &&\na", "f() { a; }\n",
+			// the alias inside a substitution inside a here-document
+			"cat <<E\n$(a)\nE\n", "cat <<E\n`a`\nE\n", "cat <<E\n$(( $(a) ))\nE\n", "cat <<-`a`\nx\n", "cat <<E\nx ${v:-$(a)} y\nE\n", "x \"$(a)\" <<E\n$(a)\nE\n"}
 		k := 0
 		for _, v := range vals {
 			for _, src := range srcs {
